@@ -62,6 +62,7 @@ pub fn c12_int_counter_two_locals_two_ops() {
     std::mem::forget(l1);
     std::mem::forget(l2);
     std::mem::forget(c);
+    vcover!(true, "end of harness reached");
 }
 
 /// Float counter local: flush adds exactly the accumulated amount, second flush adds nothing.
@@ -87,6 +88,7 @@ pub fn c12_float_counter_flush_twice() {
     assert!(c.get() == s0 + (x + y), "C12 reset discards unflushed local data only");
     std::mem::forget(l);
     std::mem::forget(c);
+    vcover!(true, "end of harness reached");
 }
 
 /// Local histogram scenario with `n` pending observations (any f64) followed by operation `op`
@@ -144,12 +146,14 @@ pub fn c12_local_histogram_flush_and_clear() {
     local_hist_case(1, 0);
     local_hist_case(2, 0);
     local_hist_case(2, 1);
+    vcover!(true, "end of harness reached");
 }
 /// Local histogram: clone starts empty and flushes on drop; direct observes are independent.
 #[cfg_attr(kani, kani::proof, kani::unwind(4))]
 pub fn c12_local_histogram_clone_and_direct() {
     local_hist_case(1, 2);
     local_hist_case(2, 3);
+    vcover!(true, "end of harness reached");
 }
 /// Local histogram: dropping flushes (0, 1, 2 pending observations).
 #[cfg_attr(kani, kani::proof, kani::unwind(4))]
@@ -157,6 +161,7 @@ pub fn c12_local_histogram_drop_flushes() {
     local_hist_case(0, 4);
     local_hist_case(1, 4);
     local_hist_case(2, 4);
+    vcover!(true, "end of harness reached");
 }
 
 pub fn dispatch(name: &str) -> Option<fn()> {
